@@ -91,7 +91,7 @@ def _zone(name):
 
 def gen_invocation(rnd, B):
     """returns (tool, args, stdin, expected stdout or None, tag)"""
-    k = rnd.randrange(20)
+    k = rnd.randrange(24)
     n, s, d = dt(rnd, B, rnd.random() < 0.5)
     n2, s2, d2 = dt(rnd, B, "T" in d)
     if k == 0:
@@ -127,6 +127,28 @@ def gen_invocation(rnd, B):
         return "dconv", ["-S", "-f", "%d %b %Y (%a)"], lines.encode(), None, "dconv:-S"
     if k == 11:
         return "dconv", ["-i", "%d %b %Y", "%02d %s %04d" % (R.ymd(n)[2], R.MON_ABBR[R.ymd(n)[1] - 1], R.ymd(n)[0]), "-f", "%F"], b"", R.f_ymd(n) + "\n", "dconv:-i"
+    if k >= 20:
+        # --base in the tools that compare: month-day values, the year comes from the base for the
+        # lines / operands AND for the value inside the expression
+        by = rnd.randrange(1700, 4000)
+        base = "%04d-%02d-%02d" % (by, rnd.randrange(1, 13), rnd.randrange(1, 29))
+        md = lambda: (rnd.randrange(1, 13), rnd.randrange(1, 29))
+        ref = md()
+        if k in (20, 21):
+            vals = [md() for _ in range(10)] + [ref]
+            op = rnd.choice(["<", "<=", ">", ">=", "=", "!="])
+            rel = {"<": lambda a, b: a < b, "<=": lambda a, b: a <= b, ">": lambda a, b: a > b,
+                   ">=": lambda a, b: a >= b, "=": lambda a, b: a == b, "!=": lambda a, b: a != b}[op]
+            lines = ["%02d-%02d" % v for v in vals]
+            exp = "".join(l + "\n" for l, v in zip(lines, vals) if rel(v, ref))
+            return "dgrep", ["-b", base, "-i", "%m-%d", "%s%02d-%02d" % ((op,) + ref)], "".join(l + "\n" for l in lines).encode(), exp, "base:dgrep"
+        if k == 22:
+            other = md()
+            c = (ref > other) - (ref < other)
+            return "dtest", ["-b", base, "-i", "%m-%d", "%02d-%02d" % ref, "--cmp", "%02d-%02d" % other], b"", "", "base:dtest:%d" % c
+        other = md()
+        a, b_ = R.n_of(by, ref[0], ref[1]), R.n_of(by, other[0], other[1])
+        return "ddiff", ["-b", base, "-i", "%m-%d", "%02d-%02d" % ref, "%02d-%02d" % other, "-f", "%d"], b"", "%d\n" % (b_ - a), "base:ddiff"
     if k >= 18:
         # fully specified times, the increment left to the tool: nothing here may come from the clock
         h = rnd.randrange(0, 23)
